@@ -246,8 +246,9 @@ impl Script {
             Lat::Range(..) => "latR",
         };
         format!(
-            "{lat}{}|d{:?}|{}",
+            "{lat}{}{}|d{:?}|{}",
             if self.cfg.page_cache { "+pc" } else { "" },
+            if self.cfg.capacity.is_some() { "+cap" } else { "" },
             self.depths,
             parts.join(";")
         )
@@ -265,16 +266,23 @@ pub fn gen_script(rng: &mut Rng, max_acts: usize, crashes: bool) -> Script {
         Lat::Range(100, 900),
         Lat::Range(50, 5000),
     ]);
-    let cfg = Cfg {
+    let mut cfg = Cfg {
         sync_prob: 0.0,
         block: None,
         lat,
         page_cache: rng.chance(0.35),
         fs_seed: rng.next_u64(),
+        capacity: None,
     };
     let nrings = rng.range(1, 3) as usize;
     let depths: Vec<u32> = (0..nrings).map(|_| *rng.pick(&[1u32, 2, 4, 8])).collect();
     let nfiles = rng.range(1, 3) as usize;
+    if rng.chance(0.3) {
+        // a nearly full disk: the initial files plus a little slack, so that
+        // ring writes (in particular writes past EOF) run into ENOSPC
+        let used: u64 = (0..nfiles).map(|i| initial_content(i).len() as u64).sum();
+        cfg.capacity = Some(used + *rng.pick(&[2u64, 6, 12, 24, 48]));
+    }
     let n = rng.range(6, max_acts as u64) as usize;
     let (lmin, lmax) = (lat.min().as_nanos() as u64, lat.max().as_nanos() as u64);
     let mut acts = vec![];
@@ -687,6 +695,7 @@ pub fn gen_san_script(rng: &mut Rng) -> Script {
         lat,
         page_cache: rng.chance(0.3),
         fs_seed: rng.next_u64(),
+        capacity: None,
     };
     let nfiles = rng.range(1, 2) as usize;
     let depth = *rng.pick(&[4u32, 8]);
